@@ -480,15 +480,18 @@ class TermAlg:
         raise AnalysisError("unary %s" % norm(e))
 
     def x_BoolOp(self, e, env):
-        if isinstance(e.op, ast.And):
-            for x in e.values:
-                if not self.truth(self.eval(x, env), x):
-                    return False
-            return True
-        for x in e.values:
-            if self.truth(self.eval(x, env), x):
-                return True
-        return False
+        # Python value semantics: `a or b` is a if a is truthy else b
+        last = None
+        for i, x in enumerate(e.values):
+            last = self.eval(x, env)
+            if i == len(e.values) - 1:
+                break
+            t = self.truth(last, x)
+            if isinstance(e.op, ast.And) and not t:
+                return last
+            if isinstance(e.op, ast.Or) and t:
+                return last
+        return last
 
     def x_BinOp(self, e, env):
         return self.arith(e.op, self.eval(e.left, env), self.eval(e.right, env), e)
@@ -721,6 +724,12 @@ class TermAlg:
                     return pos[0]
                 if n == "list":
                     return ListV(self.iterate(pos[0], e)) if pos else ListV()
+                if n == "dict":
+                    if not pos:
+                        return DictV()
+                    if isinstance(pos[0], DictV):
+                        return DictV(pos[0].d)
+                    raise AnalysisError("dict(%s) outside the kernel fragment" % norm(e.args[0]))
                 if n == "sorted":
                     items = self.iterate(pos[0], e)
                     return ListV(sorted(items, key=lambda k: k.name if isinstance(k, Key) else str(k)))
